@@ -11,6 +11,11 @@ import PyamgV.Proofs.SorAdjoint
 import PyamgV.Proofs.Cache
 import PyamgV.Proofs.ExtC16Relax
 import PyamgV.Proofs.ExtC16RelaxEx
+import PyamgV.Proofs.ExtC16YSchwarz
+import PyamgV.Proofs.ExtC16YBlock
+import PyamgV.Proofs.ExtC16YCheb
+import PyamgV.Proofs.ExtC16YComplex
+import PyamgV.Proofs.ExtC16YEx
 
 /-! # C16 — coarse-grid solvers return the (least-squares) solution in the caller's shape
 
@@ -33,11 +38,15 @@ Clause by clause (T = theorem about the executed model, H = hypothesis checked p
 * repeated calls reuse the factorisation and stay correct — T `run_same_matrix`, `run_factor_once`
 * a matrix without nonzeros yields a zero correction      — T `call_empty`
 * relaxation solvers start from zero, energy norm         — T `relax_gs_energy`, `relax_sor_energy` (gauss_seidel, sor);
-  extension E29 (section 3b, model `C16R.relaxSolveR` on recorded inputs): T `relaxR_*_sweeps` (every other name except
-  schwarz starts from zeros and is `iterations` sweeps of its kernel model), T `relax_jacobi_energy`,
+  extension E29 (section 3b, model `C16R.relaxSolveR` on recorded inputs): T `relaxR_*_sweeps` (every other name
+  starts from zeros and is `iterations` sweeps of its kernel model), T `relax_jacobi_energy`,
   `relax_richardson_energy` (H the damping bound), T `relax_gs_ne_error`, `relax_gs_nr_residual_csr`,
-  `relax_jacobi_ne_error` (2-norm of error / residual; NOT the energy norm: known finding); S energy for
-  block_jacobi / block_gauss_seidel on block storage, chebyshev, schwarz -/
+  `relax_jacobi_ne_error` (2-norm of error / residual; NOT the energy norm: known finding);
+  extension E51 (section 3c): T `relaxR_schwarz_sweeps`, `relax_schwarz_energy` (H exact recorded inverse blocks),
+  T `relax_block_gauss_seidel_energy`, `relax_block_jacobi_energy` (block storage; H exact recorded block inverses, block
+  damping bound), T `relax_chebyshev_energy` (H `|1 − λ p(λ)| ≤ 1` on the spectrum), T `relax_gs_energy_complex`,
+  `relax_sor_energy_complex`, `relax_jacobi_energy_complex` (complex Hermitian matrices, model run on Gaussian rationals);
+  S complex runs of the other relaxation names -/
 namespace PyamgV.Props.C16
 open PyamgV PyamgV.C16
 
@@ -224,6 +233,54 @@ restate jacobi_ne_error_nonexpansive := PyamgV.C16R.pyJacobiNE_error
 /-- the hypotheses of the energy / 2-norm clauses hold on `[[2,-1],[-1,2]]`, `b = (1,1)` -/
 restate relaxR_hyps_satisfiable := PyamgV.C16R.relaxR_hyps_satisfiable
 
+/-! ## 3c. schwarz, block storage, chebyshev, complex matrices (extension E51, Proofs/ExtC16Y*.lean)
+
+`schwarz` is a branch of `C16R.relaxSolveR` (driver op `c16y_relax`): the kernel model `K.pySchwarz` of C09
+(`overlapping_schwarz_csr` + the Python driver) on the recorded tuple of `relaxation.schwarz_parameters` (`Rec.sj sp tx tp`).
+`C16Y.toB B bs` = the recorded block storage as a `K.Bsr`, `C02X.bsrOp` its operator, `ExtC09.RightInv / LeftInv /
+SubRightInv` = the recorded inverse blocks are exact. -/
+
+/-- **starts from zero, `iterations` passes of the kernel model** — schwarz (forward / backward / symmetric) -/
+restate relaxR_schwarz_sweeps := PyamgV.C16Y.relaxSolveR_schwarz
+/-- options schwarz does not take raise `TypeError`; records the kernel cannot run on are refused -/
+restate relaxR_schwarz_rejects := PyamgV.C16Y.relaxSolveR_schwarz_rejects
+/-- `schwarzRecOK`: every index of every subdomain is a row of the matrix -/
+restate schwarz_record_indices := PyamgV.C16Y.schwarzRecOK_idx
+/-- one subdomain step with an exact inverse block is an exact subspace correction: energy does not increase -/
+restate schwarz_step_energy := PyamgV.C16Y.schwarzStep_energy
+/-- the kernel over any list of subdomains / the Python driver, any sweep, any number of iterations -/
+restate schwarz_sweep_energy := PyamgV.C16Y.schwarzSweep_energy
+restate schwarz_driver_energy := PyamgV.C16Y.pySchwarz_energy
+/-- **energy clause, schwarz**: exact recorded inverse blocks, symmetric positive semidefinite matrix -/
+restate relax_schwarz_energy := PyamgV.C16Y.relax_schwarz_energy
+
+/-- the block kernels of the C16 relaxation model are the block kernel models of C09 (all arguments) -/
+restate block_gauss_seidel_models_agree := PyamgV.C16Y.blockGaussSeidel_eq
+restate block_jacobi_models_agree := PyamgV.C16Y.blockJacobi_eq
+/-- **energy clause, block_gauss_seidel on block storage** (`bs ≥ 2`), exact recorded block inverses -/
+restate relax_block_gauss_seidel_energy := PyamgV.C16Y.relax_block_gauss_seidel_energy
+/-- **energy clause, block_jacobi on block storage**, under the block damping bound -/
+restate relax_block_jacobi_energy := PyamgV.C16Y.relax_block_jacobi_energy
+/-- the same two in the energy norm of the CSR matrix of the call (recorded block storage = that matrix) -/
+restate relax_block_gauss_seidel_energy_csr := PyamgV.C16Y.relax_block_gauss_seidel_energy_csr
+restate relax_block_jacobi_energy_csr := PyamgV.C16Y.relax_block_jacobi_energy_csr
+
+/-- `polynomial` under `|1 − λ p(λ)| ≤ 1` on the spectrum, eigenvectors spanning modulo the radical of the form -/
+restate polynomial_nonexp_of_spectrum_rad := PyamgV.C16Y.polynomial_nonexp_of_spectrum_rad
+/-- one step of the model's `relaxation.polynomial` is the function-level `polyFn` of the C02 theorems -/
+restate polynomial_step_is_polyFn := PyamgV.C16Y.polyStep_is_polyFn
+/-- **energy clause, chebyshev**, under the spectral condition checked per instance -/
+restate relax_chebyshev_energy := PyamgV.C16Y.relax_chebyshev_energy
+
+/-- a smoother of the model from zeros over the Gaussian rationals: complex energy norm -/
+restate complex_smoother_from_zero_energy := PyamgV.C16Y.csm_from_zero_energy
+/-- **energy clause, gauss_seidel / sor / jacobi, complex Hermitian positive semidefinite matrices** -/
+restate relax_gs_energy_complex := PyamgV.C16Y.relax_gs_energy_complex
+restate relax_sor_energy_complex := PyamgV.C16Y.relax_sor_energy_complex
+restate relax_jacobi_energy_complex := PyamgV.C16Y.relax_jacobi_energy_complex
+/-- the hypotheses of the E51 clauses hold together on concrete instances -/
+restate relaxY_hyps_satisfiable := PyamgV.C16Y.relaxY_hyps_satisfiable
+
 /-! ## 4. the dispatch chain -/
 
 theorem dispatch_direct_names :
@@ -300,7 +357,8 @@ example :
     (relaxSolve "gauss_seidel" { iterations := some 1 } A #[1, 1]) = .ok #[1/2, 3/4] := by decide +kernel
 
 /-- E29: the extended relaxation model on `[[2,-1],[-1,2]]`, `b = (1,1)`, one iteration of each setup on recorded
-inputs (`rho = 3/2` resp. `3`, Chebyshev polynomial `(1/3, -4/3, 1)`); a missing estimate and `schwarz` are errors -/
+inputs (`rho = 3/2` resp. `3`, Chebyshev polynomial `(1/3, -4/3, 1)`); a missing estimate and a missing Schwarz record
+are errors; E51: `schwarz` with the default subdomains `{0,1}`, `{0,1}` and the exact inverse block solves at once -/
 example :
     let A : K.Csr Rat := ⟨2, #[0, 2, 4], #[0, 1, 0, 1], #[2, -1, -1, 2]⟩
     let it1 : Opts Rat := { iterations := some 1 }
@@ -313,7 +371,10 @@ example :
     C16R.relaxSolveR id "gauss_seidel_nr" { iterations := some 2, sweep := some .symmetric } {} A #[1, 1] =
       .ok #[2101/3125, 369/625] ∧
     C16R.relaxSolveR id "jacobi" it1 {} A #[1, 1] = .error "no-rho" ∧
-    C16R.relaxSolveR id "schwarz" it1 {} A #[1, 1] = .error "unmodelled" := by decide +kernel
+    C16R.relaxSolveR id "schwarz" it1 {} A #[1, 1] = .error "bad-record" ∧
+    C16R.relaxSolveR id "schwarz" it1 C16Y.riS A #[1, 0] = .ok #[2/3, 1/3] ∧
+    C16R.relaxSolveR id "schwarz" ({ omega := some 1 } : Opts Rat) {} A #[1, 1] = .error "TypeError" ∧
+    C16R.relaxSolveR id "foo" it1 {} A #[1, 1] = .error "unmodelled" := by decide +kernel
 
 /-- E29: the block kernels on the 1-D Poisson matrix of size 4 stored in 2x2 blocks, recorded block inverses
 `[[2/3,1/3],[1/3,2/3]]`; the model's `A.tocsc()` of that (symmetric) matrix -/
